@@ -129,6 +129,29 @@ func runC07(r *mc.Run) {
 	}
 	add("levels/empty-list", nil, func(e *world.EnclaveIdentity) { e.TcbLevels = []world.Level{} })
 	add("levels/null", nil, func(e *world.EnclaveIdentity) { e.TcbLevels = nil })
+	// level dates: the listed order decides, whatever the dates say (ascending = later listed is newer), and
+	// lists that are not sorted by isvsvn (a search that assumes descending order goes wrong on them)
+	for _, ls := range [][]world.Level{
+		{mkLevel(8, "OutOfDate"), mkLevel(7, "UpToDate")}, {mkLevel(8, "UpToDate"), mkLevel(7, "Revoked")},
+		{mkLevel(7, "OutOfDate"), mkLevel(9, "UpToDate"), mkLevel(6, "UpToDate")}, {mkLevel(7, "UpToDate"), mkLevel(9, "Revoked"), mkLevel(6, "OutOfDate")},
+		{mkLevel(9, "UpToDate"), mkLevel(7, "OutOfDate"), mkLevel(9, "UpToDate"), mkLevel(8, "UpToDate")}, {mkLevel(6, "Revoked"), mkLevel(9, "UpToDate"), mkLevel(9, "UpToDate"), mkLevel(5, "UpToDate"), mkLevel(8, "UpToDate")},
+		{mkLevel(9, "UpToDate"), mkLevel(9, "UpToDate"), mkLevel(9, "UpToDate"), mkLevel(5, "OutOfDate"), mkLevel(9, "UpToDate"), mkLevel(8, "UpToDate"), mkLevel(4, "UpToDate")},
+	} {
+		for _, mode := range []int{0, 1, 2} {
+			lsCopy := append([]world.Level(nil), ls...)
+			name := ""
+			for i := range lsCopy {
+				switch mode {
+				case 1:
+					lsCopy[i].TcbDate = fmt.Sprintf("20%02d-03-01T00:00:00Z", 20+i)
+				case 2:
+					lsCopy[i].TcbDate = fmt.Sprintf("20%02d-03-01T00:00:00Z", 29-i)
+				}
+				name += fmt.Sprintf("%d:%s,", *lsCopy[i].Tcb.Isvsvn, lsCopy[i].TcbStatus)
+			}
+			add(fmt.Sprintf("level-order/%sdates=%s", name, []string{"equal", "ascending", "descending"}[mode]), nil, func(e *world.EnclaveIdentity) { e.TcbLevels = lsCopy })
+		}
+	}
 	for _, v := range []int{0, 7, 9, 0x0800, 0xffff} {
 		v := v
 		add(fmt.Sprintf("isvsvn/report=%#x", v), func(qe []byte) { binary.LittleEndian.PutUint16(qe[258:], uint16(v)) }, nil)
